@@ -86,6 +86,10 @@ var exts = []string{"yaml", "json", "toml"}
 func run(c Case, dir string) error {
 	os.MkdirAll(filepath.Join(dir, "home"), 0o755)
 	os.MkdirAll(filepath.Join(dir, "work"), 0o755)
+	exts := exts
+	if _, ok := c.Main["toml"]; !ok {
+		exts = []string{"yaml", "json"} // a case with null values
+	}
 	for _, ext := range exts {
 		os.WriteFile(filepath.Join(dir, "c."+ext), []byte(strings.ReplaceAll(c.Main[ext], "@WORK@", filepath.Join(dir, "work"))), 0o644)
 		if c.Imported != nil {
@@ -123,7 +127,7 @@ func run(c Case, dir string) error {
 			}
 			obs[ext] = fmt.Sprintf("exit=%d\n%s", r.Exit, out)
 		}
-		if obs["yaml"] != obs["json"] || obs["yaml"] != obs["toml"] {
+		if _, three := obs["toml"]; obs["yaml"] != obs["json"] || (three && obs["yaml"] != obs["toml"]) {
 			return fmt.Errorf("the three files give different results for `taskctl %s`:\n--yaml--\n%s\n--json--\n%s\n--toml--\n%s\n== YAML ==\n%s\n== TOML ==\n%s",
 				strings.Join(args, " "), clip(obs["yaml"]), clip(obs["json"]), clip(obs["toml"]), c.Main["yaml"], c.Main["toml"])
 		}
@@ -143,13 +147,23 @@ func clip(s string) string {
 	return s
 }
 
+// withNulls: the current case holds null values, which TOML cannot express: it is written as YAML and JSON only.
+var withNulls bool
+
 func emitAll(m gen.Map) map[string]string {
+	if withNulls {
+		return map[string]string{"yaml": gen.YAML(m), "json": gen.JSON(m)}
+	}
 	return map[string]string{"yaml": gen.YAML(m), "json": gen.JSON(m), "toml": gen.TOML(m)}
 }
 
 func genCase(rt *rapid.T) Case {
-	cfg := gen.ValidConfig(rt, gen.ConfigOpts{Dir: "@WORK@"})
+	withNulls = rapid.IntRange(0, 3).Draw(rt, "null-values") == 0
+	cfg := gen.ValidConfig(rt, gen.ConfigOpts{Dir: "@WORK@", Nulls: withNulls})
 	c := Case{}
+	if withNulls {
+		c.Features = append(c.Features, "null-values(yaml+json)")
+	}
 	tasks, _ := cfg.Get("tasks")
 	tm := tasks.(gen.Map)
 	c.Tasks = tm.Keys()
@@ -174,7 +188,9 @@ func genCase(rt *rapid.T) Case {
 		c.Main = map[string]string{}
 		for _, ext := range exts {
 			with := append(gen.Map{{K: "import", V: gen.List{"imp." + ext}}}, cfg...)
-			c.Main[ext] = emitAll(with)[ext]
+			if e, ok := emitAll(with)[ext]; ok {
+				c.Main[ext] = e
+			}
 		}
 		c.Features = append(c.Features, "import")
 	} else {
